@@ -209,6 +209,18 @@ func (e *specEnv) toMath(v sval) sval {
 	return sval{t: fmt.Sprintf("((_ zero_extend 1) %s)", v.t), math: true, w: w + 1, lit: v.lit}
 }
 
+// toMathSigned: a value usable as w-bit pattern (Go-typed values keep their bits)
+func (e *specEnv) toMathSigned(v sval, w int) sval {
+	if v.math {
+		return v
+	}
+	vw, _, _ := intInfo(v.typ)
+	if vw != w {
+		e.fail("bit operation on integers of different widths")
+	}
+	return sval{t: v.t, math: true, w: w}
+}
+
 func maxi(a, b int) int {
 	if a > b {
 		return a
@@ -610,6 +622,12 @@ func (e *specEnv) unary(n *EUnary) sval {
 			return e.mlit(new(big.Int).Neg(v.lit))
 		}
 		return e.marith("-", e.mlit(big.NewInt(0)), v)
+	case "^":
+		v := e.tr(n.X)
+		if e.vc.mode != modeBV || v.typ == nil {
+			e.fail("bitwise complement in specs needs a Go-typed integer and the bv encoding")
+		}
+		return sval{t: "(bvnot " + v.t + ")", typ: v.typ}
 	case "*":
 		v := e.tr(n.X)
 		p, ok := v.typ.Underlying().(*types.Pointer)
@@ -645,6 +663,32 @@ func (e *specEnv) binary(n *EBinary) sval {
 	}
 	a, b := e.tr(n.X), e.tr(n.Y)
 	switch n.Op {
+	case "&", "|", "^", "&^":
+		if !isIntLike(a) || !isIntLike(b) {
+			e.fail("bit operation on non-integers")
+		}
+		if e.vc.mode != modeBV {
+			e.fail("bit operations in specs need the bv encoding")
+		}
+		t := a.typ
+		if t == nil {
+			t = b.typ
+		}
+		if t == nil {
+			e.fail("bit operation needs at least one Go-typed operand")
+		}
+		w, _, _ := intInfo(t)
+		x, y := e.fromMathTo(e.toMathSigned(a, w), t).t, e.fromMathTo(e.toMathSigned(b, w), t).t
+		switch n.Op {
+		case "&":
+			return sval{t: "(bvand " + x + " " + y + ")", typ: t}
+		case "|":
+			return sval{t: "(bvor " + x + " " + y + ")", typ: t}
+		case "^":
+			return sval{t: "(bvxor " + x + " " + y + ")", typ: t}
+		default:
+			return sval{t: "(bvand " + x + " (bvnot " + y + "))", typ: t}
+		}
 	case "+", "-", "*", "/", "div", "mod", "%":
 		if isFloatVal(a) || isFloatVal(b) {
 			a, b = e.toFloat(a), e.toFloat(b)
@@ -887,19 +931,19 @@ func (e *specEnv) index(n *EIndex) sval {
 	switch t := v.typ.Underlying().(type) {
 	case *types.Slice:
 		i := e.mathInt(e.tr(n.I))
-		addr := fmt.Sprintf("(ea (s_arr %s) (+ (s_off %s) %s))", v.t, v.t, i)
+		addr := vc.ea("(s_arr "+v.t+")", "(+ (s_off "+v.t+") "+i+")")
 		return sval{t: vc.load(e.st, addr, t.Elem()), typ: t.Elem(), addr: addr}
 	case *types.Array:
 		i := e.mathInt(e.tr(n.I))
 		r := sval{t: "(select " + v.t + " " + i + ")", typ: t.Elem()}
 		if v.addr != "" {
-			r.addr = "(ea " + v.addr + " " + i + ")"
+			r.addr = vc.ea(v.addr, i)
 		}
 		return r
 	case *types.Pointer:
 		if arr, ok := t.Elem().Underlying().(*types.Array); ok {
 			i := e.mathInt(e.tr(n.I))
-			addr := "(ea " + v.t + " " + i + ")"
+			addr := vc.ea(v.t, i)
 			return sval{t: vc.load(e.st, addr, arr.Elem()), typ: arr.Elem(), addr: addr}
 		}
 	case *types.Map:
@@ -1178,6 +1222,19 @@ func (e *specEnv) call(n *ECall) sval {
 		}
 		w := 66
 		return sval{t: fmt.Sprintf("(bvshl (_ bv1 %d) %s)", w, e.ext(sval{t: s.t, w: s.w}, maxi(w, s.w))), math: true, w: w}
+	case "shl": // shl(x, s) = x * 2^s for a shift count 0 <= s <= 63 (mathematical, never overflows)
+		x, sft := e.toMath(arg(0)), e.toMath(arg(1))
+		if sft.lit != nil {
+			return e.marith("*", x, e.mlit(pow2(int(sft.lit.Int64()))))
+		}
+		if vc.mode != modeBV {
+			e.fail("shl by a variable needs bv mode")
+		}
+		w := e.checkW(x.w + 64)
+		if sft.w > w {
+			e.fail("shl: shift count too wide")
+		}
+		return sval{t: "(bvshl " + e.ext(x, w) + " " + e.ext(sft, w) + ")", math: true, w: w}
 	case "addr":
 		a, _, ok := e.lvalue(n.Args[0])
 		if !ok {
@@ -1242,7 +1299,53 @@ func (e *specEnv) call(n *ECall) sval {
 	return sval{}
 }
 
+// abstract spec function: uninterpreted
+func (e *specEnv) abstractSpecFun(d *Decl, args []Expr) sval {
+	vc := e.vc
+	if len(args) != len(d.Params) {
+		e.fail("spec abstract %s: expected %d arguments", d.Name, len(d.Params))
+	}
+	var sorts, terms []string
+	for i, p := range d.Params {
+		v := e.tr(args[i])
+		if p.Typ == "int" {
+			if vc.mode != modeInt {
+				e.fail("spec abstract %s with int parameter needs int mode", d.Name)
+			}
+			sorts = append(sorts, "Int")
+			terms = append(terms, e.toMath(v).t)
+			continue
+		}
+		t := e.resolveType(p.Typ)
+		if t == nil {
+			e.fail("spec abstract %s: unknown type %s", d.Name, p.Typ)
+		}
+		sorts = append(sorts, vc.sortOf(t))
+		terms = append(terms, e.coerceTo(v, t))
+	}
+	name := "|spec_" + d.Name + "|"
+	if d.RetTyp == "int" {
+		if vc.mode != modeInt {
+			e.fail("spec abstract %s returning int needs int mode", d.Name)
+		}
+		vc.declareFun(name, sorts, "Int")
+		return sval{t: "(" + name + " " + strings.Join(terms, " ") + ")", math: true}
+	}
+	rt := e.resolveType(d.RetTyp)
+	if rt == nil {
+		e.fail("spec abstract %s: unknown result type %s", d.Name, d.RetTyp)
+	}
+	vc.declareFun(name, sorts, vc.sortOf(rt))
+	if len(terms) == 0 {
+		return sval{t: name, typ: rt}
+	}
+	return sval{t: "(" + name + " " + strings.Join(terms, " ") + ")", typ: rt}
+}
+
 func (e *specEnv) expandSpecFun(d *Decl, args []Expr) sval {
+	if d.Abstract {
+		return e.abstractSpecFun(d, args)
+	}
 	if e.depth > 40 {
 		e.fail("spec function expansion too deep (recursive spec fun %s?)", d.Name)
 	}
